@@ -574,10 +574,61 @@ def gen_delete(rng, spec, cfg, closure_names, i):
     return None
 
 
+def gen_second_system_indirect(rng, spec, cfg, closure_names, i):
+    """A second System over a brand-new usage pattern / journey / step / job chain that shares exactly one object
+    (a server, a network, a country or a device) with the first system: must be refused."""
+    ups = list(spec["objs"]["sys"]["attrs"]["usage_patterns"][1])
+    if not ups:
+        return None
+    src = spec["objs"][rng.choice(ups)]["attrs"]
+    servers = [n for n in by_cls(spec, ("Server", "BoaviztaCloudServer")) if n in closure_names]
+    shared = rng.choice(["server", "network", "country", "device"])
+    if shared == "server" and not servers:
+        shared = "network"
+    steps, nice = [], cfg.get("nice_numbers", False)
+    if shared == "server":
+        server = rng.choice(servers)
+    else:
+        st, server = f"st_x{i}", f"srv_x{i}"
+        a = {k: gen.qv(rng, "Storage", k, nice) for k in NUM_DEFAULTS["Storage"]}
+        a["fixed_nb_of_instances"] = ["e"]
+        steps.append({"op": "create", "name": st, "cls": "Storage", "attrs": a})
+        a = {k: gen.qv(rng, "Server", k, nice) for k in NUM_DEFAULTS["Server"]}
+        a.update({"server_type": ["s", "autoscaling"], "fixed_nb_of_instances": ["e"], "storage": ["ref", st]})
+        steps.append({"op": "create", "name": server, "cls": "Server", "attrs": a})
+    ja = {k: gen.qv(rng, "Job", k, nice) for k in NUM_DEFAULTS["Job"]}
+    ja["server"] = ["ref", server]
+    steps.append({"op": "create", "name": f"j_x{i}", "cls": "Job", "attrs": ja})
+    steps.append({"op": "create", "name": f"step_x{i}", "cls": "UsageJourneyStep", "attrs": {
+        "user_time_spent": gen.qv(rng, "UsageJourneyStep", "user_time_spent", nice), "jobs": ["refs", [f"j_x{i}"]]}})
+    steps.append({"op": "create", "name": f"uj_x{i}", "cls": "UsageJourney", "attrs": {"uj_steps": ["refs", [f"step_x{i}"]]}})
+    network, country, device = src["network"][1], src["country"][1], src["devices"][1][0]
+    if shared != "network":
+        network = f"net_x{i}"
+        steps.append({"op": "create", "name": network, "cls": "Network",
+                      "attrs": {"bandwidth_energy_intensity": gen.qv(rng, "Network", "bandwidth_energy_intensity")}})
+    if shared != "country":
+        country = f"c_x{i}"
+        steps.append({"op": "create", "name": country, "cls": "Country", "attrs": {
+            "average_carbon_intensity": gen.qv(rng, "Country", "average_carbon_intensity"),
+            "short_name": ["str", f"X{i}"], "timezone": ["tz", rng.choice(gen.ZONES)]}})
+    if shared != "device":
+        device = f"dev_x{i}"
+        steps.append({"op": "create", "name": device, "cls": "Device",
+                      "attrs": {k: gen.qv(rng, "Device", k, nice) for k in NUM_DEFAULTS["Device"]}})
+    h = src["hourly_usage_journey_starts"]
+    up = {"name": f"up_x{i}", "attrs": {"usage_journey": ["ref", f"uj_x{i}"], "devices": ["refs", [device]],
+                                         "network": ["ref", network], "country": ["ref", country],
+                                         "hourly_usage_journey_starts": ["h", h[1], list(h[2]), h[3]]}}
+    return {"op": "second_system", "name": f"sys_n{i}", "new_up": up, "before": steps, "shared": shared}
+
+
 def gen_second_system(rng, spec, cfg, closure_names, i):
     ups = list(spec["objs"]["sys"]["attrs"]["usage_patterns"][1])
     if not ups:
         return None
+    if rng.random() < 0.5:
+        return gen_second_system_indirect(rng, spec, cfg, closure_names, i)
     mode = rng.choice(["same_up", "new_up_shared_objects"])
     if mode == "same_up":
         return {"op": "second_system", "name": f"sys_n{i}", "ups": [rng.choice(ups)]}
